@@ -147,6 +147,20 @@ def phase1(case):
     if k == 'unknown_component':
         c = core.Component(datatype=case['dt'], version=case['v'], validation_level=case['level'])
         return c
+    if k == 'msh_field':
+        # MSH-1 / MSH-2 hold the separator characters themselves: their text is never split, whatever the defaults are
+        seg = core.Segment('MSH', version=case['v'], validation_level=case['level'])
+        how = case['how']
+        if how == 'value':
+            getattr(seg, case['fname']).value = case['text']
+        elif how == 'assign':
+            setattr(seg, case['fname'], case['text'])
+        elif how == 'component':
+            setattr(getattr(seg, case['fname']), 'st', case['text'])
+        else:
+            setattr(getattr(seg, case['fname']), case['fname'].lower() + '_1', case['text'])
+        seg.msh_3 = 'APP'
+        return seg
     if k == 'unknown_field':
         return core.Field(datatype=case['dt'], version=case['v'], validation_level=case['level']) if case['dt'] else \
             core.Field(version=case['v'], validation_level=case['level'])
@@ -212,6 +226,9 @@ def phase2(case, state):
         sc = c.add_subcomponent(case['dt'])
         sc.value = 'zz'
         return {'er7': c.to_er7(R.full(R.DEFAULT_EC)), 'attrs': _tree_attrs(c)}
+    if k == 'msh_field':
+        f = getattr(state, case['fname'])[0]
+        return {'er7': state.to_er7(R.full(R.DEFAULT_EC)), 'field': f.to_er7(), 'leaves': [len(c.children) for c in f.children]}
     if k in ('unknown_field', 'named_component'):
         return {'er7': state.to_er7(R.full(R.DEFAULT_EC)), 'attrs': _tree_attrs(state), 'datatype': state.datatype}
     raise ValueError(k)
@@ -298,7 +315,7 @@ def configs(draw):
 @st.composite
 def cases(draw, cells, mcells):
     k = draw(st.sampled_from(['parse_message', 'parse_message', 'parse_segment', 'parse_segment', 'parse_field', 'parse_component',
-                              'message_model', 'factory', 'factory', 'elements', 'unknown_component', 'unknown_field', 'named_component']))
+                              'message_model', 'factory', 'factory', 'elements', 'unknown_component', 'unknown_field', 'named_component', 'msh_field']))
     cfg = draw(configs())
     level = draw(st.sampled_from([1, 2]))
     if k == 'parse_message':
@@ -346,6 +363,13 @@ def cases(draw, cells, mcells):
         dt0 = lit.first_leaf_dt(T, v, ref)
         value = draw(st.one_of(st.sampled_from([lit.valid(dt0, 0), lit.valid(dt0, 1)]), st.sampled_from(['abc', 'x1', BIG, '12', '2020'])))
         case = {'kind': k, 'v': v, 'seg': s, 'fname': fname, 'value': value, 'level': level}
+    elif k == 'msh_field':
+        v = draw(st.sampled_from(T.VERSIONS))
+        fname = draw(st.sampled_from(['MSH_2', 'MSH_2', 'MSH_1']))
+        text = draw(st.sampled_from(['^~\\&', '!$*@', '$%@!', '^&~\\'])) if fname == 'MSH_2' else draw(st.sampled_from(['|', '!', '&', '$']))
+        if fname == 'MSH_2' and T.vkey(v) >= [2, 7] and draw(st.booleans()):
+            text += '#'
+        case = {'kind': k, 'v': v, 'fname': fname, 'text': text, 'how': draw(st.sampled_from(['value', 'assign', 'component', 'path'])), 'level': level}
     elif k == 'unknown_field':
         v = draw(st.sampled_from(T.VERSIONS))
         dt = draw(st.sampled_from([None, None, 'ST', 'varies'] + sorted(T.complex_datatypes(v))[:4]))
